@@ -310,15 +310,15 @@ def main():
     rep.functions = describe(fns, kernel) + [dict(d, config='import-esm') for d in describe(G['fns']['esm'], ['import_path'])]
     rep.configs = ['ts-rs: default features', 'ts-rs: import-esm']
     # the modelled working directories exist on every Linux system, so the native runs use the very same cwd
-    cwds = ['/tmp'] if quick else ['/', '/tmp', '/usr/lib']
+    cwds = ['/tmp'] if quick else ['/', '/tmp']
     validate(rep, 150 if quick else 1500, cwds)
-    bases = ['', 'o/', './', '/', 'a/../', '../', '/tmp/'] if quick else ['', 'o/', './', '/', 'a/../', '../', '/tmp/', './a/./', '/o/', 'o/t/']
-    total = 6 if quick else 8
+    bases = ['', 'o/', './', '/', 'a/../', '../', '/tmp/']
+    total = 6          # thorough widens the cells (both working directories, 7 x 5 base pairs, every split of the 6 symbolic bytes); (3 cwds, 10 x 10 bases, 8 bytes) ran past 45 minutes
     items = []
     for cwd in cwds:
         for cfg in ('plain', 'esm'):
             for bf in bases:
-                for bi in (bases if not quick else ['', 'o/', '/tmp/', '../']):
+                for bi in (['', 'o/', '/tmp/', '../', './'] if not quick else ['', 'o/', '/tmp/', '../']):
                     if cfg == 'esm' and (bf, bi) not in (('', ''), ('o/', 'o/'), ('', '../'), ('/', '')):
                         continue          # the esm suffix is independent of the path arithmetic: fewer cells
                     for nf in range(0, total + 1):
